@@ -217,17 +217,46 @@ def contextlib_facts() -> Dict[str, Any]:
 
 
 # ------------------------------------------------------------------ interpreters
+def _probe_one(short: str) -> Dict[str, Any]:
+    full = SUPPORTED[short]
+    exe = f"{PYENV}/{full}/bin/python3"
+    if not os.path.exists(exe):
+        raise AnalysisError(f"interpreter {exe} missing")
+    env = {"PATH": "/usr/bin:/bin", "PYTHONHASHSEED": "0", "PYTHONWARNINGS": "ignore"}
+    r = subprocess.run([exe, "-I", "-S", "-W", "ignore", PROBE], capture_output=True, text=True, env=env, timeout=300)
+    if r.returncode != 0:
+        raise AnalysisError(f"facts probe failed under {exe}: {r.stderr[-400:]}")
+    return json.loads(r.stdout)
+
+
 def interpreter_facts() -> Dict[str, Any]:
-    out = {}
+    """one probe process per interpreter, in parallel; memoised in /dev/shm by the digest of everything the
+    result depends on (probe script, interpreter binaries) so that consecutive thorough checks do not redo it"""
+    import concurrent.futures as cf
+    import hashlib
+    h = hashlib.sha256(open(PROBE, "rb").read())
     for short, full in SUPPORTED.items():
-        exe = f"{PYENV}/{full}/bin/python3"
-        if not os.path.exists(exe):
-            raise AnalysisError(f"interpreter {exe} missing")
-        env = {"PATH": "/usr/bin:/bin", "PYTHONHASHSEED": "0"}
-        r = subprocess.run([exe, "-I", "-S", PROBE], capture_output=True, text=True, env=env, timeout=120)
-        if r.returncode != 0:
-            raise AnalysisError(f"facts probe failed under {exe}: {r.stderr[-400:]}")
-        out[short] = json.loads(r.stdout)
+        st = os.stat(f"{PYENV}/{full}/bin/python3")
+        h.update(f"{full}:{st.st_size}:{int(st.st_mtime)}".encode())
+        st2 = os.stat(f"{PYENV}/{full}/lib/python{short}/contextlib.py")
+        h.update(f"{st2.st_size}:{int(st2.st_mtime)}".encode())
+    cache = f"/dev/shm/svx_facts_cache_{h.hexdigest()[:20]}.json"
+    if os.environ.get("SVX_NO_FACT_CACHE") != "1" and os.path.exists(cache):
+        try:
+            with open(cache) as f:
+                return json.load(f)
+        except Exception:
+            pass
+    with cf.ThreadPoolExecutor(max_workers=4) as ex:
+        res = list(ex.map(_probe_one, list(SUPPORTED)))
+    out = dict(zip(list(SUPPORTED), res))
+    try:
+        tmp = cache + f".{os.getpid()}"
+        with open(tmp, "w") as f:
+            json.dump(out, f)
+        os.replace(tmp, cache)
+    except OSError:
+        pass
     return out
 
 
